@@ -1,7 +1,10 @@
 (* Suite RT: router programs (Handle/Remove/Clean/Use/Prefix/Resource/URL/serve/routes/dump).
    Shared by the tree-related properties; the oracle is selected by the property id. *)
 From Coq Require Import String.
+From RecordUpdate Require Import RecordSet.
 From Mux Require Import Model.Bytes Model.Wire Model.Regex Model.Context Model.Syntax Model.Tree Model.Router.
+From Mux Require Import Spec.Table Spec.Resolve.
+Import RecordSetNotations.
 
 Fixpoint print_h (h : hterm) : bytes :=
   match h with
@@ -13,6 +16,14 @@ Fixpoint print_h (h : hterm) : bytes :=
   end.
 
 Fixpoint h_core (h : hterm) : hterm := match h with HWrap _ _ _ _ i => h_core i | _ => h end.
+
+Definition print_core (h : hterm) : bytes :=
+  match h_core h with
+  | HUser id => bs "U:" ++ id
+  | HNotFound => bs "NF" | HTrace => bs "TR" | HOptions => bs "OP" | HNotAllowed => bs "NA"
+  | HGroupNotFound => bs "GNF"
+  | HWrap _ _ _ _ _ => bs "?"
+  end.
 
 Definition comma : bytes := bs ",".
 
@@ -52,7 +63,7 @@ Definition serve_obs (t : tree) (method path : bytes) (ps0 : params) : list byte
                | HOptions, Some nd | HNotAllowed, Some nd => allow_of (nmidx nd)
                | _, _ => []
                end in
-    [bs "served"; print_h h] ++
+    [bs "served"; print_h h; print_core h] ++
     (match n with
      | Some nd => [bs "1"; npat nd; join comma (methods_of (nmidx nd)); allow_of (nmidx nd)]
      | None => [bs "0"; []; []; []]
@@ -105,26 +116,45 @@ Definition icpt_of_kind (k : bytes) : bytes -> bool :=
   else if beqb k (bs "nodot") then (fun s => negb (existsb (N.eqb 46) s) && match_any s)
   else (fun _ => false).
 
-Record srt := {
+Definition memo_t := list (line * list bytes).
+Fixpoint memo_get (k : line) (m : memo_t) : option (list bytes) :=
+  match m with
+  | [] => None
+  | (k', v) :: m' => if lines_eqb k k' then Some v else memo_get k m'
+  end.
+Definition memo_set (k : line) (v : list bytes) (m : memo_t) : memo_t :=
+  (k, v) :: filter (fun kv => negb (lines_eqb k (fst kv))) m.
+
+Record srt := mk_srt {
   rt : router;
   facs : list (bytes * facade);
   unsup : bool;                 (* a regexp outside the modelled fragment was used: stop comparing *)
   pid : bytes;
-  live : list (bytes * list (bytes * bytes));   (* abstract table: pattern -> method -> handler id *)
+  (* ---- specification side, driven by what the implementation answered *)
+  tc : tcfg;
+  live : table;
+  uses : list bytes;            (* every middleware given to Router.Use so far, in order *)
+  addonly : bool;               (* no Remove / Clean so far *)
+  memo : memo_t;                (* implementation observations since the last accepted mutation *)
+  rejected : bool;              (* a Handle call was rejected since [memo] was cleared *)
+  frame : memo_t;               (* dispatch observations that later removals must not change *)
+  syn : list (bytes * bool);    (* CheckSyntax answers seen *)
 }.
+#[export] Instance eta_srt : Settable _ :=
+  settable! mk_srt <rt; facs; unsup; pid; tc; live; uses; addonly; memo; rejected; frame; syn>.
 
 Definition init_rt (pid : bytes) (h : list line) : srt :=
   let cfg := match filter (fun l => beqb (arg 0 l) (bs "cfg")) h with l :: _ => l | [] => [] end in
   let ic := map (fun kv => (fst kv, icpt_of_kind (snd kv))) (pairs (fst (take_list (skipn 4 (args cfg))))) in
-  {| rt := new_router (arg 2 cfg) ic (argb 1 cfg) (arg 3 cfg); facs := []; unsup := false; pid := pid; live := [] |}.
+  {| rt := new_router (arg 2 cfg) ic (argb 1 cfg) (arg 3 cfg); facs := []; unsup := false; pid := pid;
+     tc := {| c_trace := argb 1 cfg; c_router := arg 2 cfg; c_ic := ic |};
+     live := []; uses := []; addonly := true; memo := []; rejected := false; frame := []; syn := [] |}.
 
 Definition target_facade (s : srt) (t : bytes) : option facade :=
   if beqb t (bs "r") then None else alookup t (facs s).
 
-Definition with_rt (s : srt) (r : router) : srt :=
-  {| rt := r; facs := facs s; unsup := unsup s; pid := pid s; live := live s |}.
-Definition mark_unsup (s : srt) : srt :=
-  {| rt := rt s; facs := facs s; unsup := true; pid := pid s; live := live s |}.
+Definition with_rt (s : srt) (r : router) : srt := s <| rt := r |>.
+Definition mark_unsup (s : srt) : srt := s <| unsup := true |>.
 
 Definition apply_res (s : srt) (r : res router) : srt * list bytes :=
   match r with
@@ -164,7 +194,7 @@ Definition step_rt (s : srt) (o : line) : srt * list bytes :=
     let f := if beqb op (bs "prefix") then f_prefix parent (arg 3 o) mws else f_resource parent (arg 3 o) mws in
     (* a Resource has no Prefix/Resource methods: the harness ignores such a call *)
     if match parent with Some p => negb (fprefix p) | None => false end then (s, [bs "ok"]) else
-    ({| rt := rt s; facs := (arg 1 o, f) :: facs s; unsup := unsup s; pid := pid s; live := live s |}, [bs "ok"])
+    (s <| facs := (arg 1 o, f) :: facs s |>, [bs "ok"])
   else if beqb op (bs "serve") then
     (s, serve_obs (rtree (rt s)) (arg 1 o) (arg 2 o) [])
   else if beqb op (bs "routes") then (s, routes_obs (rtree (rt s)))
@@ -188,17 +218,376 @@ Definition step_rt (s : srt) (o : line) : srt * list bytes :=
 Definition step_rt' (s : srt) (o : line) : srt * list bytes :=
   if unsup s then (s, [bs "unsup"]) else step_rt s o.
 
-Definition oracle_rt (s s' : srt) (o : line) (r : list bytes) : list bytes := [].
+
+(* ================================================================ the properties, judged on
+   the IMPLEMENTATION's observations.  Clause names are prefixed by the property they falsify. *)
+Definition cl (c : String.string) : bytes := bs c.
+Definition check (b : bool) (c : String.string) : list bytes := if b then [] else [bs c].
+
+Definition obs_is (r : list bytes) (k : String.string) : bool := beqb (nth 0 r []) (bs k).
+
+(* target resolution: full pattern and the facade's middlewares (C19's desugaring) *)
+Definition full_pattern (s : srt) (tgt pattern : bytes) : bytes :=
+  match target_facade s tgt with None => pattern | Some f => f_pattern f pattern end.
+Definition facade_mws (s : srt) (tgt : bytes) : list bytes :=
+  match target_facade s tgt with None => [] | Some f => fms f end.
+
+Definition live_toks (s : srt) : option (list (bytes * list tok)) :=
+  fold_right (fun pe acc =>
+    match acc, tokens (fst pe) with
+    | Some l, Some ts =>
+      if all_kinds_ok (c_ic (tc s)) ts && negb (beqb (fst pe) (bs "*")) then Some ((fst pe, ts) :: l) else None
+    | _, _ => None
+    end) (Some []) (live s).
+
+Definition params_eqb (a b : params) : bool :=
+  list_beqb (flat_params a) (flat_params b).
+
+Definition methods_valid (trace : bool) (ms : list bytes) : bool :=
+  forallb (fun m => is_method m && negb (beqb m OPTIONS) && negb (beqb m HEAD) && negb (trace && beqb m TRACE)) ms
+  && nodupb ms.
+
+(* literal bytes of every live pattern (for the 'simple value' test of C03) *)
+Definition lit_bytes (lt : list (bytes * list tok)) : bytes :=
+  flat_map (fun pt => flat_map (fun t => match t with TLit l => l | _ => [] end) (snd pt)) lt.
+
+Definition simple_witness (s : srt) (lt : list (bytes * list tok)) (p : bytes) (vals : params) (path : bytes) : bool :=
+  match alookup p lt with
+  | None => false
+  | Some ts =>
+    let lb := lit_bytes lt in
+    forallb (fun t => match t with
+                      | TPar _ n rule =>
+                        match ctx_get vals n with
+                        | Some v => accepts (kind_of (c_ic (tc s)) rule) v && forallb (fun c => negb (existsb (N.eqb c) lb)) v
+                        | None => false
+                        end
+                      | TLit _ => true end) ts &&
+    match instantiate ts vals with Some x => beqb x path | None => false end
+  end.
+
+Definition expected_404 (s : srt) : hterm := apply_mw HNotFound [] [] (c_router (tc s)) (uses s).
+Definition expected_trace (s : srt) : hterm := apply_mw HTrace TRACE [] (c_router (tc s)) (uses s).
+Definition expected_star (s : srt) : hterm := apply_mw HOptions OPTIONS [] (c_router (tc s)) (uses s).
+
+Definition serve_clauses (s : srt) (o : line) (r : list bytes) : list bytes :=
+  let method := arg 1 o in let path := arg 2 o in
+  if obs_is r "panic" then [cl "C05:serve-panics"; cl "C03:serve-panics"] else
+  if unsup s then [] else
+  let term := nth 1 r [] in let core := nth 2 r [] in let hasnode := beqb (nth 3 r []) (bs "1") in
+  let pat := nth 4 r [] in let methods := nth 5 r [] in let allow := nth 6 r [] in let cap := nth 7 r [] in
+  let ps := pairs (skipn 8 r) in
+  let trace := c_trace (tc s) in
+  let lt := live_toks s in
+  let special := beqb path (bs "*") || beqb path [] || (trace && beqb method TRACE) in
+  (* ---- resolution against the table (C02 on add-only routers, C03 on simple witnesses) *)
+  let resolution :=
+    match lt with
+    | Some lt' =>
+      if special then [] else
+      let outs := resolve (c_ic (tc s)) lt' path in
+      let member := hasnode && existsb (fun o' => beqb (fst o') pat && params_eqb (snd o') ps) outs in
+      let is404 := beqb core (bs "NF") in
+      let agree := if is404 then match outs with [] => true | _ => false end else member in
+      (if addonly s then check agree "C02:resolution-differs-from-documented-procedure" else []) ++
+      (if beqb (arg 3 o) (bs "w") then
+         let wp := arg 4 o in
+         let vals := pairs (fst (take_list (skipn 5 (args o)))) in
+         if simple_witness s lt' wp vals path then
+           check (negb is404) "C03:live-route-not-served" ++ check agree "C03:wrong-winner-for-simple-witness"
+         else []
+       else [])
+    | None => []
+    end in
+  (* ---- removals must not change earlier dispatches to other routes (C03 frame) *)
+  let framec :=
+    match memo_get [arg 1 o; arg 2 o] (frame s) with
+    | Some old => check (lines_eqb old ([term; core; pat] ++ skipn 8 r)) "C03:removal-changed-unrelated-dispatch"
+    | None => []
+    end in
+  resolution ++ framec ++
+  if beqb core (bs "NF") then
+    check (match ps with [] => true | _ => false end) "C01:404-reports-parameters" ++
+    check (negb hasnode) "C01:404-reports-a-route" ++
+    check (beqb term (print_h (expected_404 s))) "C09:404-middlewares"
+  else if beqb core (bs "TR") then
+    check (trace && beqb method TRACE) "C18:trace-handler-without-option" ++
+    check (beqb term (print_h (expected_trace s))) "C18:trace-middlewares" ++
+    check (beqb term (print_h (expected_trace s))) "C09:trace-middlewares"
+  else if beqb pat [] then
+    (* the root node: OPTIONS * (or the empty path) *)
+    if beqb core (bs "OP") then
+      check (beqb method OPTIONS && (beqb path (bs "*") || beqb path [])) "C01:root-for-ordinary-path" ++
+      check (star_ok trace (live s) (split_byte 44 methods) &&
+             beqb allow (join (bs ", ") (split_byte 44 methods)) && beqb cap allow) "C04:options-star-allow" ++
+      check (beqb term (print_h (expected_star s))) "C09:options-star-middlewares"
+    else if beqb core (bs "NA") then
+      check (beqb path (bs "*") || beqb path []) "C01:root-for-ordinary-path"
+    else [cl "C01:user-handler-at-root"]
+  else
+    match alookup pat (live s) with
+    | None => [cl "C01:reported-route-not-registered"]
+    | Some e =>
+      (* handler identity: the one registered for this pattern and method *)
+      (match table_handler e method with
+       | Some h =>
+         check (beqb core (print_core h)) "C01:wrong-handler" ++
+         check (beqb term (print_h h)) "C09:middleware-order"
+       | None =>
+         check (beqb core (bs "NA")) "C01:handler-for-unregistered-method" ++
+         match table_handler e M405 with
+         | Some h => check (beqb term (print_h h)) "C09:middleware-order-405"
+         | None => []
+         end
+       end) ++
+      (if beqb method HEAD then check (Bool.eqb (beqb core (bs "NA")) (negb (ahas GET e))) "C08:head-iff-get" else []) ++
+      (if beqb method OPTIONS then check (beqb core (bs "OP")) "C08:options-not-automatic" else []) ++
+      (* path = pattern instantiated with the reported parameters *)
+      (match lt with
+       | Some lt' =>
+         match alookup pat lt' with
+         | Some ts =>
+           check (inst_match (c_ic (tc s)) ts ps path) "C01:path-is-not-the-pattern-with-reported-values" ++
+           check (same_keys ps (capture_names ts)) "C01:reported-parameters-not-exactly-the-capturing-ones"
+         | None => []
+         end
+       | None => []
+       end) ++
+      (* Allow / method sets *)
+      check (beqb methods (join comma (spec_methods trace e))) "C04:node-methods" ++
+      check (beqb allow (spec_allow trace e)) "C04:node-allow-header" ++
+      (if beqb core (bs "OP") || beqb core (bs "NA")
+       then check (beqb cap (spec_allow trace e)) "C04:allow-of-options-or-405-response" else []) ++
+      (if trace then check (mem TRACE (split_byte 44 methods)) "C18:trace-missing-from-allow" else [])
+    end.
+
+Definition routes_clauses (s : srt) (r : list bytes) : list bytes :=
+  if obs_is r "panic" then [cl "C05:routes-panics"] else
+  if unsup s || ahas (bs "*") (live s) then [] else
+  let spec := flat_map (fun kv => [fst kv; join comma (snd kv)]) (spec_routes (c_trace (tc s)) (live s)) in
+  check (lines_eqb r spec) "C03:routes-differs-from-live-table" ++
+  check (lines_eqb r spec) "C04:routes-method-sets".
+
+(* the four documented syntax errors vs. everything else that does not tokenise *)
+Inductive pclass := PWf (ts : list tok) | PMalformed | POther | PUnsupported.
+
+Fixpoint scan_class (fuel : nat) (s : bytes) : nat :=   (* 0 ok, 1 documented error, 2 other *)
+  match fuel with
+  | O => 2%nat
+  | S f =>
+    match s with
+    | [] => 0%nat
+    | c :: s' =>
+      if N.eqb c 125 then 2%nat
+      else if N.eqb c 123 then
+        match span_until 125 s' with
+        | None => 2%nat
+        | Some (body, rest) =>
+          if existsb (N.eqb 123) body then 2%nat else
+          let name0 := match span_until 58 body with Some (n, _) => n | None => body end in
+          match name0 with
+          | [] => 1%nat                              (* {} or {:rule} : empty name *)
+          | [45] => 2%nat                            (* {-} : not specified *)
+          | _ => scan_class f rest
+          end
+        end
+      else scan_class f s'
+    end
+  end.
+
+Definition classify (ic : icpts) (p : bytes) : pclass :=
+  match p with
+  | [] => POther
+  | _ =>
+    match scan_class (S (length p)) p with
+    | 0%nat =>
+      match tok_scan (S (length p)) p [] with
+      | Some ts =>
+        if negb (no_adjacent ts) || negb (nodupb (par_names ts)) then PMalformed
+        else if existsb (fun t => match t with TPar _ _ rule => match kind_of ic rule with KBad => true | _ => false end | _ => false end) ts then PMalformed
+        else if all_kinds_ok ic ts then PWf ts else PUnsupported
+      | None => POther
+      end
+    | 1%nat => PMalformed
+    | _ => POther
+    end
+  end.
+
+Definition url_clauses (s : srt) (o : line) (r : list bytes) : list bytes :=
+  if obs_is r "panic" then [cl "C05:url-panics"] else
+  if unsup s then [] else
+  let strict := argb 2 o in
+  let p := full_pattern s (arg 1 o) (arg 3 o) in
+  let ps := fold_left (fun acc kv => ctx_set acc (fst kv) (snd kv)) (pairs (fst (take_list (skipn 4 (args o))))) [] in
+  let dom := rdomain (rt s) in
+  let isok := obs_is r "ok" in
+  let got := nth 1 r [] in
+  match p with
+  | [] => []
+  | _ =>
+    if strict then
+      match classify (c_ic (tc s)) p with
+      | PWf ts =>
+        let valid := ahas p (live s) &&
+                     forallb (fun t => match t with
+                                       | TPar _ n rule => match ctx_get ps n with
+                                                          | Some v => accepts (kind_of (c_ic (tc s)) rule) v
+                                                          | None => false end
+                                       | TLit _ => true end) ts in
+        if valid then check (isok && match instantiate ts ps with Some x => beqb got (dom ++ x) | None => false end)
+                            "C10:strict-url-refused-or-wrong"
+        else check (negb isok) "C10:strict-url-accepted-invalid"
+      | PMalformed => check (negb isok) "C10:strict-url-accepted-malformed-pattern"
+      | _ => check (isok || negb (ahas p (live s)) || true) "C10:-"
+      end
+    else
+      match ps with
+      | [] => []                                    (* the property speaks about non-empty params *)
+      | _ =>
+        match classify [] p with
+        | PWf ts =>
+          match instantiate ts ps with
+          | Some x => check (isok && beqb got (dom ++ x)) "C10:url-is-not-the-substituted-pattern"
+          | None => check (negb isok) "C10:url-built-despite-missing-parameter"
+          end
+        | PMalformed => check (negb isok) "C10:url-accepted-malformed-pattern"
+        | _ => []
+        end
+      end
+  end.
+
+Definition handle_clauses (s : srt) (o : line) (r : list bytes) : list bytes :=
+  if obs_is r "panic" then [cl "C05:handle-runtime-fault"] else
+  if unsup s then [] else
+  let p := full_pattern s (arg 1 o) (arg 2 o) in
+  let ms0 := fst (take_list (snd (take_list (skipn 4 (args o))))) in
+  let ms := match ms0 with [] => any_methods | _ => ms0 end in
+  let trace := c_trace (tc s) in
+  let ic := c_ic (tc s) in
+  let accepted := obs_is r "ok" in
+  let mvalid := methods_valid trace ms in
+  let e := opt_default [] (alookup p (live s)) in
+  let dup := existsb (fun m => ahas m e) ms || negb (nodupb ms) in
+  let twins := filter (fun pe => negb (beqb (fst pe) p) && same_up_to_names p (fst pe)) (live s) in
+  let reserved := existsb (fun m => beqb m OPTIONS || beqb m HEAD || (trace && beqb m TRACE) || negb (is_method m)) ms in
+  check (negb (accepted && reserved)) "C08:reserved-or-unknown-method-accepted" ++
+  (if trace then check (negb (accepted && mem TRACE ms)) "C18:trace-registered-by-hand" else []) ++
+  check (negb (accepted && dup)) "C17:duplicate-accepted" ++
+  check (negb (accepted && Nat.eqb (length (live s)) 1 && Nat.eqb (length twins) 1)) "C17:twin-of-the-only-route-accepted" ++
+  (match classify ic p with
+   | PWf _ =>
+     check (accepted || negb mvalid || dup || negb (match twins with [] => true | _ => false end))
+           "C17:rejected-as-ambiguous-without-a-twin"
+   | PMalformed => check (negb accepted) "C17:malformed-pattern-accepted"
+   | _ => []
+   end) ++
+  (* Handle agrees with CheckSyntax when no interceptor rule is involved *)
+  (match alookup p (syn s), classify [] p, classify ic p with
+   | Some synok, c0, c1 =>
+     let no_icpt := match c1 with
+                    | PWf ts => forallb (fun t => match t with TPar _ _ rule => negb (ahas rule ic) | _ => true end) ts
+                    | PUnsupported => false
+                    | _ => match ic with [] => true | _ => false end
+                    end in
+     if no_icpt then
+       check (negb (accepted && negb synok)) "C05:handle-accepts-what-checksyntax-rejects" ++
+       check (accepted || negb synok || negb mvalid || dup || negb (match twins with [] => true | _ => false end))
+             "C05:handle-rejects-what-checksyntax-accepts"
+     else []
+   | None, _, _ => []
+   end).
+
+Definition is_observation (op : bytes) : bool :=
+  beqb op (bs "serve") || beqb op (bs "routes") || beqb op (bs "dump") || beqb op (bs "url").
+
+Definition oracle_all (s s' : srt) (o : line) (r : list bytes) : list bytes :=
+  let op := arg 0 o in
+  (if is_observation op then
+     match memo_get o (memo s) with
+     | Some old =>
+       check (lines_eqb old r || negb (rejected s)) "C17:rejected-handle-changed-an-observation" ++
+       check (lines_eqb old r || rejected s) "C03:observation-not-repeatable"
+     | None => []
+     end
+   else []) ++
+  (if beqb op (bs "serve") then serve_clauses s o r
+   else if beqb op (bs "routes") then routes_clauses s r
+   else if beqb op (bs "url") then url_clauses s o r
+   else if beqb op (bs "handle") then handle_clauses s o r
+   else if beqb op (bs "syntax") || beqb op (bs "muxurl") then
+     check (negb (obs_is r "panic")) "C05:syntax-or-url-panics"
+   else if beqb op (bs "remove") || beqb op (bs "clean") || beqb op (bs "use") then
+     check (negb (obs_is r "panic")) "C05:mutation-panics" ++ check (negb (obs_is r "panic")) "C03:mutation-panics"
+   else []).
+
+(* a check for property P reports the clauses of P only (suite "RT": everything) *)
+Definition oracle_rt (s s' : srt) (o : line) (r : list bytes) : list bytes :=
+  let all := oracle_all s s' o r in
+  if beqb (pid s) (bs "RT") then all
+  else filter (fun c => has_prefix c (pid s)) all.
+
+(* ---- the specification side follows what the implementation accepted *)
+Definition absorb_rt (s : srt) (o : line) (r : list bytes) : srt :=
+  let op := arg 0 o in
+  let a := args o in
+  let clear (s : srt) := s <| memo := [] |> <| rejected := false |> in
+  if beqb op (bs "handle") then
+    if obs_is r "ok" then
+      let p := full_pattern s (arg 1 o) (arg 2 o) in
+      let '(mws, rest) := take_list (skipn 4 a) in
+      let '(ms, _) := take_list rest in
+      clear (s <| live := t_handle (tc s) (live s) p (HUser (arg 3 o)) (mws ++ facade_mws s (arg 1 o) ++ uses s) ms |>
+               <| frame := [] |>)
+    else s <| rejected := true |>
+  else if beqb op (bs "remove") then
+    let p := full_pattern s (arg 1 o) (arg 2 o) in
+    let '(ms, _) := take_list (skipn 3 a) in
+    clear (s <| live := t_remove (live s) p ms |> <| addonly := false |>
+             <| frame := filter (fun kv => negb (beqb (nth 2 (snd kv) []) p)) (frame s) |>)
+  else if beqb op (bs "clean") then
+    match target_facade s (arg 1 o) with
+    | None => clear (s <| live := [] |> <| addonly := false |> <| frame := [] |>)
+    | Some f =>
+      if fprefix f then
+        clear (s <| live := t_clean (live s) (fpat f) |> <| addonly := false |>
+                 <| frame := filter (fun kv => negb (has_prefix (nth 2 (snd kv) []) (fpat f))) (frame s) |>)
+      else
+        clear (s <| live := t_remove (live s) (fpat f) [] |> <| addonly := false |>
+                 <| frame := filter (fun kv => negb (beqb (nth 2 (snd kv) []) (fpat f))) (frame s) |>)
+    end
+  else if beqb op (bs "use") then
+    let mws := fst (take_list (skipn 1 a)) in
+    clear (s <| live := t_use (tc s) (live s) mws |> <| uses := uses s ++ mws |> <| frame := [] |>)
+  else if beqb op (bs "syntax") then
+    s <| syn := (arg 1 o, obs_is r "ok") :: syn s |>
+  else if is_observation op then
+    let s1 := s <| memo := memo_set o r (memo s) |> in
+    if beqb op (bs "serve") && obs_is r "served" && beqb (nth 3 r []) (bs "1") && negb (beqb (nth 4 r []) [])
+    then s1 <| frame := memo_set [arg 1 o; arg 2 o] ([nth 1 r []; nth 2 r []; nth 4 r []] ++ skipn 8 r) (frame s1) |>
+    else s1
+  else s.
 
 Definition tags_rt (s s' : srt) (o : line) (r : list bytes) : list bytes :=
   if unsup s' then [bs "unsup"] else
   let op := arg 0 o in
   if beqb op (bs "serve") then
     match r with
-    | k :: t :: _ => [bs "serve"] ++ (if beqb k (bs "served") then [] else [bs "serve-panic"])
+    | k :: _ =>
+      if beqb k (bs "served") then
+        let core := nth 2 r [] in
+        [bs "serve";
+         if beqb core (bs "NF") then bs "serve-404"
+         else if beqb core (bs "NA") then bs "serve-405"
+         else if beqb core (bs "OP") then bs "serve-options"
+         else if beqb core (bs "TR") then bs "serve-trace" else bs "serve-user"] ++
+        (match skipn 8 r with [] => [] | _ => [bs "serve-with-params"] end) ++
+        (if beqb (arg 3 o) (bs "w") then [bs "serve-witness"] else [])
+      else [bs "serve"; bs "serve-panic"]
     | _ => [bs "serve"]
     end
+  else if beqb op (bs "handle") then [if obs_is r "ok" then bs "handle-ok" else bs "handle-rejected"]
+  else if beqb op (bs "url") then [if obs_is r "ok" then bs "url-ok" else bs "url-err"]
   else [op].
 
 Definition suite_rt (pid : bytes) : suite :=
-  {| St := srt; init := init_rt pid; step := step_rt'; oracle := oracle_rt; tags := tags_rt |}.
+  {| St := srt; init := init_rt pid; step := step_rt'; oracle := oracle_rt; tags := tags_rt; absorb := absorb_rt |}.
